@@ -1475,6 +1475,11 @@ def check_C15(tier):
                             if mx >= 0 and mn > mx:
                                 continue
                             scenarios.append(dict(h, sid=len(scenarios) + 1, ctor=ctor, desc=h["desc"] + " (built with %s)" % ctor))
+                        scenarios.append(dict(h, sid=len(scenarios) + 1, wb="from_depth", desc=h["desc"] + " (WalkBehavior::from(depth))"))
+                    # the behaviour through the public conversions that keep the defaults of the other field
+                    if mn <= 0 and mx < 0 and g in (None, "**", "a/**"):
+                        for wb in (("from_link",) if follow else ("from_link", "from_unit", "default")):
+                            scenarios.append(dict(h, sid=len(scenarios) + 1, wb=wb, desc=h["desc"] + " (WalkBehavior %s)" % wb))
     # walks that start at something other than the top directory: a file, a sub-directory, and (links read as
     # targets) links to a file / a directory / an ancestor and a dangling link
     nodes, index = W.tree(W.TREES["links"])
